@@ -144,6 +144,7 @@ class Gen:
         self.prog = None
         self.macros = []
         self.funcs_known = []   # (name, nargs)
+        self.globals_seen = []  # array-typed globals (for sizeof(g) / sizeof(g[0]))
         self.tdefs = []         # typedef names usable as types (assumed to come from an included header)
         self.stags = []
         self.sid = 0
@@ -1095,8 +1096,42 @@ class Gen:
         for _ in range(n):
             name = self.fresh("glob", prefix="g_", lo=2, hi=8)
             q = d.weighted([(3, "static "), (2, "const "), (2, "static const "), (1, "")])
-            k = d.weighted([(5, "int"), (2, "str"), (2, "array"), (1, "sized-array"), (1, "fptr")])
-            if k == "sized-array":
+            k = d.weighted([(10, "int"), (4, "str"), (4, "array"), (2, "sized-array"), (2, "fptr"), (1, "str-array"), (1, "designated"), (1, "array2d-init"), (1, "sizeof-div")])
+            if k == "str-array":
+                ty = "static const char" if "static" in q or d.bool() else "const char"
+                vals = []
+                for i in range(d.int(1, 3)):
+                    vals += self.string_const(6) + [Lx(",", "comma"), SP()]
+                vals += [Lx("NULL", "kw")] if d.bool(0.6) else self.string_const(6)
+                dec = [Lx("*", "op", ("ptr-decl",)), Lx(name, "id", ("decl-name", "global-name")), Lx("[", "br"), Lx("]", "br"), SP(), Lx("=", "op", ("asgop", "init")), SP(),
+                       Lx("{", "brace", ("init-brace",))] + vals + [Lx("}", "brace", ("init-brace",))]
+                self.tag("global:string-array")
+            elif k == "designated":
+                t, mem = self.struct_type()
+                ty = d.choice(["static const ", "static ", "const "]) + t
+                dec = [Lx(name, "id", ("decl-name", "global-name")), SP(), Lx("=", "op", ("asgop", "init")), SP(), Lx("{", "brace", ("init-brace",)),
+                       Lx(".", "op", ("designator",)), Lx(mem[0], "id", ("member",)), SP(), Lx("=", "op", ("asgop", "init")), SP()] + self.constant(True)
+                if mem[1] != mem[0]:
+                    dec += [Lx(",", "comma"), SP(), Lx(".", "op", ("designator",)), Lx(mem[1], "id", ("member",)), SP(), Lx("=", "op", ("asgop", "init")), SP()] + \
+                        (self.string_const(6) + ([SP()] + self.string_const(4) if d.bool(0.3) else []) if d.bool() else self.constant(True))
+                dec += [Lx("}", "brace", ("init-brace",))]
+                self.tag("global:designated-init")
+            elif k == "array2d-init":
+                ty = q + d.choice(["int", "char", "long"])
+                row = lambda: [Lx("{", "brace", ("init-brace",))] + self.constant(True) + [Lx(",", "comma"), SP()] + self.constant(True) + [Lx("}", "brace", ("init-brace",))]
+                dec = [Lx(name, "id", ("decl-name", "global-name")), Lx("[", "br"), Lx("2", "num", ("const:dec",)), Lx("]", "br"), Lx("[", "br"), Lx("2", "num", ("const:dec",)), Lx("]", "br"),
+                       SP(), Lx("=", "op", ("asgop", "init")), SP(), Lx("{", "brace", ("init-brace",))] + row() + [Lx(",", "comma"), SP()] + row() + [Lx("}", "brace", ("init-brace",))]
+                self.tag("global:array2d-init")
+            elif k == "sizeof-div" and self.globals_seen:
+                ty = "static const " + d.choice(["int", "size_t"])
+                other = d.choice(self.globals_seen)
+                dec = [Lx(name, "id", ("decl-name", "global-name")), SP(), Lx("=", "op", ("asgop", "init")), SP(), Lx("sizeof", "kw"), Lx("(", "par"), Lx(other, "id"), Lx(")", "par"),
+                       SP(), Lx("/", "op", ("binop", "binop:/")), SP(), Lx("sizeof", "kw"), Lx("(", "par"), Lx(other, "id"), Lx("[", "br"), Lx("0", "num", ("const:dec",)), Lx("]", "br"), Lx(")", "par")]
+                self.tag("global:sizeof-div")
+            elif k == "sizeof-div":
+                ty = q + "int"
+                dec = [Lx(name, "id", ("decl-name", "global-name"))] + ([SP(), Lx("=", "op", ("asgop", "init")), SP()] + self.constant() if "const" in q else [])
+            elif k == "sized-array":
                 ty = q + d.choice(["int", "char", "long"])
                 size = d.choice([
                     [Lx("sizeof", "kw"), Lx("(", "par"), Lx("int", "kw"), Lx(")", "par")],
@@ -1140,6 +1175,8 @@ class Gen:
                 self.tag("global:array-init")
             specs.append((ty, dec))
             self.tag("global")
+            if k in ("array", "str-array", "sized-array"):
+                self.globals_seen.append(name)
         col = self.align_col([len(t) for t, _ in specs], 0)
         for ty, dec in specs:
             lex = self.type_lex(ty) + [Lx("\t", "tab", ("align",)) for _ in self.tabs_to(len(ty), col)] + dec + [Lx(";", "semi")]
@@ -1230,6 +1267,19 @@ def gen_c(d, opts=None, name=None):
         if d.bool(0.15):
             g.comment_lines()
         g.function(i)
+    return p
+
+
+def decorate(p, d, skip=()):
+    """Neutral decoration applied after generation (and after an operator, whose line is passed in `skip`): a comment at the end of
+    a file-scope declaration line.  Kept out of the generator proper because the violation operators address line ends."""
+    n = 0
+    for i, ln in enumerate(p.lines):
+        if ln.kind in ("global", "proto") and ln.fn < 0 and i not in skip and ln.lex and ln.lex[-1].k == "semi" and vwidth(ln.text) <= 60 and d.bool(0.12):
+            ln.lex += [Lx("\t", "tab", ("trailing-comment-tab",)), Lx(d.choice(["/* table */", "// see above", "/* TODO */", "// x"]), "cmt", ("trailing-comment",))]
+            n += 1
+    if n:
+        p.tags.add("comment:trailing")
     return p
 
 
